@@ -399,6 +399,10 @@ def run_history(ctx, ops):
             before = stack.abstract()
             d = direct.run(op) if not diverged else None
             h = run_http(stack, op, recorder)
+            if op[0] == "c" and h.startswith("created:"):
+                alloc = h.split(":")[1].split("/")[1]
+                if alloc != "-":
+                    stack.note_allocated(op[1], [int(x) for x in alloc.split(",")], bytes.fromhex(op[4]))
             outs.append(h)
             nontrivial = before != "adv=0"
             ctx.case((op[0], repr(op[2:]), h) if nontrivial else None)
